@@ -1,16 +1,20 @@
 (* Fixed.v - the skeletons of Read / WriteBuffers with the proposed repairs applied.
 
    Each term below is what /verif/extract/wait emits for /repo/sess.go with the corresponding
-   patch applied (produced by running the translator on a patched copy; see fixes.diff in this
-   directory for the patch `all`).  They are NOT part of the tie to the source: they exist so
-   that the repairs are checked against the same theorems before they are committed, and so
-   that the positive theorems which replace the `_refuted` ones are already proved.
+   patch applied (produced by running the translator on a patched copy; fixes_all.diff and
+   fixes_all2.diff in this directory are the patches `all` and `all2`).  They are NOT part of
+   the tie to the source: they exist so that the repairs are checked against the same theorems
+   before they are committed, and so that the positive theorems which replace the `_refuted`
+   ones are already proved.
      f11    : `c = timeout.C` after `timeout.Reset(..)`            (Read and WriteBuffers)
      f12    : `goto RESET_TIMER` moved out of `if timeout != nil`   (Read and WriteBuffers)
      f4     : `if len(s.bufptr) > 0 || s.kcp.PeekSize() > 0 { s.notifyReadEvent() }` before the
               Unlock of the three successful paths of Read
      f4peek : the same with the weaker test `s.kcp.PeekSize() > 0` (DESIGN section 6 candidate)
-     all    : f11 + f12 + f4                                                                   *)
+     all    : f11 + f12 + f4
+     all2   : all + on `case <-c` re-read the stored deadline and `goto RESET_TIMER` unless it has
+              passed (repairs the early timeout of a caller that kept a stale timer: boundary
+              B11 and the several-callers deadline change)                                     *)
 From Coq Require Import List.
 From KV.Wait Require Import Ir GenWait.
 Import ListNotations.
@@ -45,8 +49,14 @@ Definition read_skel_all : list stmt :=
 Definition write_skel_all : list stmt :=
   [SCall PNop; SCall PNop; SLabel 1; SIf (CDeadlineSet WD) [SIf (CTimerNil) [SCall (PTimerNew WD); SAssign VC ETimerC; SCall PDeferTimerStop] [SCall (PTimerReset WD); SAssign VC ETimerC]] [SIf (CTimerNonNil) [SCall PTimerStop; SAssign VC ENil] []]; SLoop [SSelect 2 [(RcvWErr, [SReturn RSockErr]); (RcvDie, [SReturn RClosed])] (Some []); SLock 3; SCall PNop; SIf (CRoom) [SCall PSendAll; SCall PNop; SCall PFlush; SUnlock; SCall PNop; SReturn RWritten] []; SUnlock; SSelect 4 [(RcvWriteEvent, [SIf (CTimerNonNil) [SIf (CNotTimerStop) [SSelect 5 [(RcvTimerC, [])] (Some [])] []] []; SGoto 1]); (RcvC, [SReturn RTimeout]); (RcvWErr, [SReturn RSockErr]); (RcvDie, [SReturn RClosed])] None]].
 
+Definition read_skel_all2 : list stmt :=
+  [SCall PNop; SCall PNop; SLabel 1; SIf (CDeadlineSet RD) [SIf (CTimerNil) [SCall (PTimerNew RD); SAssign VC ETimerC; SCall PDeferTimerStop] [SCall (PTimerReset RD); SAssign VC ETimerC]] [SIf (CTimerNonNil) [SCall PTimerStop; SAssign VC ENil] []]; SLoop [SLock 2; SIf (CBufNonEmpty) [SCall PNop; SCall PAdvanceBuf; SIf (CHasData) [SCall (PProc FNotifyReadEvent)] []; SUnlock; SCall PNop; SReturn RData] []; SIf (CPeekPositive) [SIf (CData) [SCall PRecv; SIf (CHasData) [SCall (PProc FNotifyReadEvent)] []; SUnlock; SCall PNop; SReturn RData] []; SCall PNop; SCall PNop; SCall PRecv; SCall PNop; SCall PSetBufRest; SIf (CHasData) [SCall (PProc FNotifyReadEvent)] []; SUnlock; SCall PNop; SReturn RData] []; SUnlock; SSelect 3 [(RcvReadEvent, [SIf (CTimerNonNil) [SIf (CNotTimerStop) [SSelect 4 [(RcvTimerC, [])] (Some [])] []] []; SGoto 1]); (RcvC, [SIf (CDeadlineNotDue RD) [SGoto 1] []; SReturn RTimeout]); (RcvRErr, [SReturn RSockErr]); (RcvDie, [SReturn RClosed])] None]].
 
-Inductive fixset := FixF11 | FixF12 | FixF4 | FixF4Peek | FixAll.
+Definition write_skel_all2 : list stmt :=
+  [SCall PNop; SCall PNop; SLabel 1; SIf (CDeadlineSet WD) [SIf (CTimerNil) [SCall (PTimerNew WD); SAssign VC ETimerC; SCall PDeferTimerStop] [SCall (PTimerReset WD); SAssign VC ETimerC]] [SIf (CTimerNonNil) [SCall PTimerStop; SAssign VC ENil] []]; SLoop [SSelect 2 [(RcvWErr, [SReturn RSockErr]); (RcvDie, [SReturn RClosed])] (Some []); SLock 3; SCall PNop; SIf (CRoom) [SCall PSendAll; SCall PNop; SCall PFlush; SUnlock; SCall PNop; SReturn RWritten] []; SUnlock; SSelect 4 [(RcvWriteEvent, [SIf (CTimerNonNil) [SIf (CNotTimerStop) [SSelect 5 [(RcvTimerC, [])] (Some [])] []] []; SGoto 1]); (RcvC, [SIf (CDeadlineNotDue WD) [SGoto 1] []; SReturn RTimeout]); (RcvWErr, [SReturn RSockErr]); (RcvDie, [SReturn RClosed])] None]].
+
+
+Inductive fixset := FixF11 | FixF12 | FixF4 | FixF4Peek | FixAll | FixAll2.
 
 Definition fixed_skel (x : fixset) (f : proc) : list stmt :=
   match f, x with
@@ -55,10 +65,12 @@ Definition fixed_skel (x : fixset) (f : proc) : list stmt :=
   | FRead, FixF4 => read_skel_f4
   | FRead, FixF4Peek => read_skel_f4peek
   | FRead, FixAll => read_skel_all
+  | FRead, FixAll2 => read_skel_all2
   | FWriteBuffers, FixF11 => write_skel_f11
   | FWriteBuffers, FixF12 => write_skel_f12
   | FWriteBuffers, FixF4 => write_skel_f4
   | FWriteBuffers, FixF4Peek => write_skel_f4peek
   | FWriteBuffers, FixAll => write_skel_all
+  | FWriteBuffers, FixAll2 => write_skel_all2
   | _, _ => skel f
   end.
